@@ -325,6 +325,53 @@ theorem splitAnd_total (e : Expr) (hw : WT e) (hrb : Rebuildable e) : (∃ l, sp
 theorem splitAnd_total_parsed (r : Raw) (e : Expr) (h : build r = .ok e) : (∃ l, splitAnd e = .ok l) ∨ splitAnd e = .error .value :=
   splitAnd_total e (build_WT r e h) (build_rebuildable r e h)
 
+/-- the conjuncts `split_and` returns are again well-typed trees whose quantifier and call nodes pass their constructors … -/
+theorem splitLoop_good : ∀ (f : Nat) (stack acc : List Expr) (l : List Expr), splitLoop f stack acc = .ok l →
+    (∀ e ∈ stack, WT e ∧ Rebuildable e) → (∀ e ∈ acc, WT e ∧ Rebuildable e) → ∀ e ∈ l, WT e ∧ Rebuildable e
+  | 0, _, _, l, h, _, _ => by simp [splitLoop] at h
+  | f + 1, [], acc, l, h, _, ha => by simp only [splitLoop, Except.ok.injEq] at h; subst h; exact ha
+  | f + 1, e :: stack, acc, l, h, hs, ha => by
+      have he := hs e (by simp)
+      have hst : ∀ x ∈ stack, WT x ∧ Rebuildable x := fun x hx => hs x (List.mem_cons_of_mem _ hx)
+      simp only [splitLoop] at h
+      split at h
+      · exact splitLoop_good f stack acc l h hst ha
+      · split at h
+        · cases h
+        · obtain ⟨e', he', hwe', hre'⟩ := presplit_total e he.1 he.2
+          simp only [he', bind, Except.bind] at h
+          have hacc : ∀ x ∈ acc ++ [e'], WT x ∧ Rebuildable x := by
+            intro x hx
+            rcases List.mem_append.1 hx with hx | hx
+            · exact ha x hx
+            · simp only [List.mem_singleton] at hx; subst hx; exact ⟨hwe', hre'⟩
+          split at h
+          · rename_i t op a b
+            split at h
+            · refine splitLoop_good f _ acc l h ?_ ha
+              have wab := WT_bin_inv hwe'
+              simp only [Rebuildable] at hre'
+              intro x hx
+              simp only [List.mem_cons] at hx
+              rcases hx with rfl | rfl | hx
+              · exact ⟨wab.2, hre'.2⟩
+              · exact ⟨wab.1, hre'.1⟩
+              · exact hst x hx
+            · exact splitLoop_good f stack _ l h hst hacc
+          · exact splitLoop_good f stack _ l h hst hacc
+
+theorem splitAnd_good (e : Expr) (ps : List Expr) (h : splitAnd e = .ok ps) (hw : WT e) (hrb : Rebuildable e) :
+    ∀ p ∈ ps, WT p ∧ Rebuildable p :=
+  splitLoop_good _ [e] [] ps h (by intro x hx; simp only [List.mem_singleton] at hx; subst hx; exact ⟨hw, hrb⟩) (by simp)
+
+/-- … so the rewriting functions compose: every conjunct of `split_and` of a parser output can be handed to `refactor_reference`
+    (for any alias) and to `split_and` again, and neither fails -/
+theorem refactor_after_split (r : Raw) (e : Expr) (ps : List Expr) (alias : String) (h : build r = .ok e) (hs : splitAnd e = .ok ps) :
+    ∀ p ∈ ps, (∃ pr, refactorExpr p alias = .ok pr) ∧ ((∃ l, splitAnd p = .ok l) ∨ splitAnd p = .error .value) := by
+  intro p hp
+  obtain ⟨hw, hrb⟩ := splitAnd_good e ps hs (build_WT r e h) (build_rebuildable r e h) p hp
+  exact ⟨refactorExpr_total p alias hw hrb, splitAnd_total p hw hrb⟩
+
 /-- **`split_and` on predicates**: for the predicate made of any tree the parser builds -/
 theorem splitAndPred_total_parsed (r : Raw) (e : Expr) (p : Pred) (h : build r = .ok e) (hp : mkPred e = .ok p) :
     (∃ l, splitAndPred p = .ok l) ∨ splitAndPred p = .error .value := by
@@ -340,5 +387,186 @@ theorem splitAndPred_total_parsed (r : Raw) (e : Expr) (p : Pred) (h : build r =
 example : ∃ e l, build (.un "not" (.quant .some "i" (.field .this "xs") (.bin "or" (.bin ">" (.var "i") (.lit "0" (.int 0))) (.field .this "b")))) = .ok e ∧
     splitAnd e = .ok l ∧ l.length = 2 := by
   refine ⟨_, _, by rfl, by rfl, by rfl⟩
+
+/-! ## the halves `refactor_reference` returns are rebuildable too -/
+
+theorem trueLit_rebuildable : Rebuildable trueLit := by simp [trueLit, Rebuildable]
+
+theorem refAnd_rebuildable {alias : String} {op a b : Expr} {r : Expr × Expr} (h : refAnd alias op a b = .ok r)
+    (ho : Rebuildable op) (ha : Rebuildable a) (hb : Rebuildable b) : Rebuildable r.1 ∧ Rebuildable r.2 := by
+  unfold refAnd at h
+  simp only at h
+  split at h
+  · cases h; exact ⟨hb, ha⟩
+  · split at h
+    · cases h; exact ⟨ha, hb⟩
+    · split at h
+      · cases h; exact ⟨trueLit_rebuildable, ho⟩
+      · cases h
+
+theorem refQuantAnd_rebuildable {alias : String} {q : Quant} {x : String} {quant d body a b : Expr} {r : Expr × Expr}
+    (c : QCtx q x d body) (pa : PartOf x body a) (pb : PartOf x body b) (hrq : Rebuildable quant) (hrd : Rebuildable d)
+    (hra : Rebuildable a) (hrb : Rebuildable b) (h : refQuantAnd alias x quant d a b = .ok r) : Rebuildable r.1 ∧ Rebuildable r.2 := by
+  obtain ⟨ea, hea, _, hrea, _⟩ := splitHalf_total c pa hrd hra
+  obtain ⟨eb, heb, _, hreb, _⟩ := splitHalf_total c pb hrd hrb
+  unfold refQuantAnd at h
+  simp only [hea, heb, bind, Except.bind, pure, Except.pure] at h
+  split at h
+  · cases h; exact ⟨hreb, hrea⟩
+  · split at h
+    · cases h; exact ⟨hrea, hreb⟩
+    · split at h
+      · cases h; exact ⟨trueLit_rebuildable, hrq⟩
+      · cases h
+
+theorem refQuant_rebuildable {alias : String} {t : DataType} {q : Quant} {x : String} {d body : Expr} {r : Expr × Expr}
+    (hw : WT (.quant t q x d body)) (hrb : Rebuildable (.quant t q x d body))
+    (h : refQuant alias (.quant t q x d body) = .ok r) : Rebuildable r.1 ∧ Rebuildable r.2 := by
+  have hrb' := hrb
+  simp only [Rebuildable] at hrb'
+  have c := QCtx.of_WT hw hrb'.1
+  have hwb : WT body := hw.2.2.1
+  have self : Rebuildable (trueLit, Expr.quant t q x d body).1 ∧ Rebuildable (trueLit, Expr.quant t q x d body).2 :=
+    ⟨trueLit_rebuildable, hrb⟩
+  unfold refQuant at h
+  simp only at h
+  split at h
+  · cases h; exact self
+  · rename_i hdr
+    split at h
+    · cases h
+    · rename_i hbr
+      cases q with
+      | some => simp only at h; cases h; exact self
+        | all =>
+          simp only at h
+          split at h
+          · rename_i t1 op t2 op2 a b
+            split at h
+            · rename_i hops
+              simp only [Bool.and_eq_true, beq_iff_eq] at hops
+              obtain ⟨hop1, hop2⟩ := hops
+              have hor := WT_un_inv hwb
+              obtain ⟨hta, htb, _⟩ := WT_logic_operands hor (Or.inr (Or.inl hop2))
+              have hrab : Rebuildable a ∧ Rebuildable b := by simpa only [Rebuildable] using hrb'.2.2
+              have pa : PartOf x (.un t1 op (.bin t2 op2 a b)) a :=
+                ⟨hta, fun n hn => Or.inl (by simp only [Expr.preorder, List.mem_cons, List.mem_append]; exact Or.inr (Or.inr (Or.inl hn)))⟩
+              have pb : PartOf x (.un t1 op (.bin t2 op2 a b)) b :=
+                ⟨htb, fun n hn => Or.inl (by simp only [Expr.preorder, List.mem_cons, List.mem_append]; exact Or.inr (Or.inr (Or.inr hn)))⟩
+              simp only [mkNot_ok hta, mkNot_ok htb, bind, Except.bind,
+                mkAnd_ok (a := .un T.BOOL Gen.NOT_OPERATOR a) (b := .un T.BOOL Gen.NOT_OPERATOR b) rfl rfl] at h
+              exact refQuantAnd_rebuildable c pa.not_ pb.not_ hrb hrb'.2.1 (by simpa only [Rebuildable] using hrab.1)
+                (by simpa only [Rebuildable] using hrab.2) h
+            · cases h; exact self
+          · rename_i t1 op a b
+            split at h
+            · rename_i hop
+              have hop' : op = "and" := by simpa [Gen.AND_OPERATOR] using hop
+              obtain ⟨hta, htb, _⟩ := WT_logic_operands hwb (Or.inl hop')
+              have hrab : Rebuildable a ∧ Rebuildable b := by simpa only [Rebuildable] using hrb'.2.2
+              have pa : PartOf x (.bin t1 op a b) a :=
+                ⟨hta, fun n hn => Or.inl (by simp only [Expr.preorder, List.mem_cons, List.mem_append]; exact Or.inr (Or.inl hn))⟩
+              have pb : PartOf x (.bin t1 op a b) b :=
+                ⟨htb, fun n hn => Or.inl (by simp only [Expr.preorder, List.mem_cons, List.mem_append]; exact Or.inr (Or.inr hn))⟩
+              exact refQuantAnd_rebuildable c pa pb hrb hrb'.2.1 hrab.1 hrab.2 h
+            · cases h; exact self
+          · cases h; exact self
+
+theorem refactor_rebuildable (alias : String) : ∀ f,
+    (∀ e r, WT e → Rebuildable e → refExpr alias f e = .ok r → Rebuildable r.1 ∧ Rebuildable r.2) ∧
+    (∀ neg e r, WT e → Rebuildable e → Rebuildable neg → refNeg alias f neg e = .ok r → Rebuildable r.1 ∧ Rebuildable r.2) := by
+  intro f
+  induction f with
+  | zero =>
+    refine ⟨fun e r _ _ h => ?_, fun neg e r _ _ _ h => ?_⟩
+    · simp only [refExpr] at h; cases h
+    · simp only [refNeg] at h; cases h
+  | succ f ih =>
+    obtain ⟨ihE, ihN⟩ := ih
+    refine ⟨?_, ?_⟩
+    · intro e r hw hrb h
+      simp only [refExpr] at h
+      split at h
+      · cases h; exact ⟨hrb, trueLit_rebuildable⟩
+      · rename_i href
+        split at h
+        · cases h; exact ⟨trueLit_rebuildable, hrb⟩
+        · rename_i hbool
+          split at h
+          · cases h; exact ⟨trueLit_rebuildable, hrb⟩
+          · rename_i hkind
+            split at h
+            · rename_i t q x d body
+              exact refQuant_rebuildable hw hrb h
+            · rename_i t op a
+              split at h
+              · have hrb' := hrb
+                simp only [Rebuildable] at hrb'
+                exact ihN _ _ _ (WT_un_inv hw) hrb' hrb h
+              · cases h
+            · rename_i t op a b
+              split at h
+              · have hrb' := hrb
+                simp only [Rebuildable] at hrb'
+                exact refAnd_rebuildable h hrb hrb'.1 hrb'.2
+              · cases h; exact ⟨trueLit_rebuildable, hrb⟩
+            · cases h
+    · intro neg e r hw hrb hrn h
+      simp only [refNeg] at h
+      split at h
+      · cases h
+      · rename_i hass
+        split at h
+        · cases h; exact ⟨trueLit_rebuildable, hrn⟩
+        · rename_i hkind
+          split at h
+          · rename_i t x d p
+            have hrb' := hrb
+            simp only [Rebuildable] at hrb'
+            have c := QCtx.of_WT hw hrb'.1
+            have htp : p.ty = T.BOOL := bool_of_sub c.hb c.hnb
+            have hpx := quant_uses_var hw hrb'.1
+            have hnpx : (Expr.un T.BOOL Gen.NOT_OPERATOR p).containsRef x = true := by simpa [Expr.containsRef] using hpx
+            have hpart : PartOf x p (.un T.BOOL Gen.NOT_OPERATOR p) := (PartOf.refl_ htp).not_
+            have hfa := mkForall_part c.hd c.hb c.hnd c.hnb hrb'.1 (by simp only [Expr.ty]; decide) (by simp only [Expr.ty]; decide) hpart.nodes hnpx
+            have hwQ : WT (.quant T.BOOL .all x d (.un T.BOOL Gen.NOT_OPERATOR p)) :=
+              mkForall_WT hfa (WT_quant_inv hw).1 (mkNot_WT (mkNot_ok htp) (WT_quant_inv hw).2)
+            have hrQ : Rebuildable (.quant T.BOOL .all x d (.un T.BOOL Gen.NOT_OPERATOR p)) := by
+              simp only [Rebuildable]; exact ⟨hfa, hrb'.2.1, hrb'.2.2⟩
+            simp only [mkNot_ok htp, bind, Except.bind, hnpx, if_true, hfa] at h
+            exact refQuant_rebuildable hwQ hrQ h
+          · cases h; exact ⟨trueLit_rebuildable, hrn⟩
+          · rename_i t op a
+            split at h
+            · have hrb' := hrb
+              simp only [Rebuildable] at hrb'
+              exact ihE _ _ (WT_un_inv hw) hrb' h
+            · cases h; exact ⟨trueLit_rebuildable, hrn⟩
+          · rename_i t op a b
+            have hrb' := hrb
+            simp only [Rebuildable] at hrb'
+            split at h
+            · rename_i hop
+              have hop' : op = "implies" := by simpa [Gen.IMPLIES_OPERATOR] using hop
+              obtain ⟨hta, htb, _⟩ := WT_logic_operands hw (Or.inr (Or.inr hop'))
+              simp only [mkNot_ok htb, bind, Except.bind, mkAnd_ok (a := a) (b := .un T.BOOL Gen.NOT_OPERATOR b) hta rfl] at h
+              exact refAnd_rebuildable h (by simp only [Rebuildable]; exact hrb') hrb'.1 (by simp only [Rebuildable]; exact hrb'.2)
+            · split at h
+              · rename_i hop
+                have hop' : op = "or" := by simpa [Gen.OR_OPERATOR] using hop
+                obtain ⟨hta, htb, _⟩ := WT_logic_operands hw (Or.inr (Or.inl hop'))
+                simp only [mkNot_ok hta, mkNot_ok htb, bind, Except.bind,
+                  mkAnd_ok (a := .un T.BOOL Gen.NOT_OPERATOR a) (b := .un T.BOOL Gen.NOT_OPERATOR b) rfl rfl] at h
+                exact refAnd_rebuildable h (by simp only [Rebuildable]; exact hrb') (by simp only [Rebuildable]; exact hrb'.1)
+                  (by simp only [Rebuildable]; exact hrb'.2)
+              · cases h; exact ⟨trueLit_rebuildable, hrn⟩
+          · cases h
+
+/-- both halves `refactor_reference` returns are again well-typed and rebuildable: its results can be rewritten further -/
+theorem refactorExpr_good (e : Expr) (alias : String) (r : Expr × Expr) (h : refactorExpr e alias = .ok r) (hw : WT e) (hrb : Rebuildable e) :
+    (WT r.1 ∧ Rebuildable r.1) ∧ (WT r.2 ∧ Rebuildable r.2) := by
+  have h1 := refactorExpr_WT e alias r h hw
+  have h2 := (refactor_rebuildable alias _).1 e r hw hrb h
+  exact ⟨⟨h1.1, h2.1⟩, ⟨h1.2, h2.2⟩⟩
 
 end Hpl
